@@ -19,7 +19,7 @@ func init() {
 			aliasRuleFiltered(ruleC17Dep, "C17.dep", "C08.selection", 1, func(o Oblig) bool { return strings.Contains(o.Key, "selection by NewestInSet") }),
 			aliasRuleFiltered(ruleC06Ctor, "C06.ctor", "C08.inside", 2, func(o Oblig) bool {
 				return strings.Contains(o.Key, "ResolveRelative") && strings.Contains(o.Key, "subPath")
-			})},
+			}), ruleDiagsReachResult("C08.diagresult"), ruleValueReceiverWrites("C08.valuerecv", "/sourcebundle")},
 		NotDecided: []string{
 			"transitive closure over arbitrary dependency graphs and the content of fetched files (run-time facts)",
 			"that looked-up paths exist on disk",
@@ -28,7 +28,7 @@ func init() {
 	register("C09", &propDef{
 		Title: "A bundle survives being re-opened and archived",
 		Rules: []func(*Checker){ruleC09Fields, ruleC09Archive, ruleChecksum("C09.checksum"), ruleC06ManifestAs("C09.addrs"),
-			ruleRootSymmetric("C09.symmetric"), ruleLinkPrecise("C09.linkprecise"), ruleC09Answers, ruleLocalMemo("C09.localmemo"), ruleGuardOwnField("C09.metaguard"), ruleMetaVerbatim("C09.metaverbatim"), ruleExtractOnlyUnpacks("C09.extractonly"), ruleRestore("C09.restore"), ruleMeta("C09.meta"), ruleC04Accept2("C09.links"), ruleEntryNameAsSpelled("C09.namekept"), ruleNameAgreement("C09.names", "sourcebundle"), aliasRule(ruleC02Omit, "C02.omit", "C09.omit", 3), ruleRefusalsOfPack("C09.packrefusals"), aliasRuleFiltered(ruleBuilderAbsDir("C10.absdir"), "C10.absdir", "C09.absdir", 1, func(o Oblig) bool { return strings.Contains(o.Key, "rootDir") }),
+			ruleRootSymmetric("C09.symmetric"), ruleLinkPrecise("C09.linkprecise"), ruleC09Answers, ruleLocalMemo("C09.localmemo"), ruleGuardOwnField("C09.metaguard"), ruleMetaVerbatim("C09.metaverbatim"), ruleExtractOnlyUnpacks("C09.extractonly"), aliasRuleFiltered(ruleC01Walk, "C01.walk", "C09.walked", 1, func(o Oblig) bool { return strings.Contains(o.Key, "below the destination") }), ruleRestore("C09.restore"), ruleMeta("C09.meta"), ruleC04Accept2("C09.links"), ruleEntryNameAsSpelled("C09.namekept"), ruleNameAgreement("C09.names", "sourcebundle"), aliasRule(ruleC02Omit, "C02.omit", "C09.omit", 3), ruleRefusalsOfPack("C09.packrefusals"), aliasRuleFiltered(ruleBuilderAbsDir("C10.absdir"), "C10.absdir", "C09.absdir", 1, func(o Oblig) bool { return strings.Contains(o.Key, "rootDir") }),
 			aliasRuleFiltered(ruleC02LinkTarget, "C02.linktarget", "C09.linktarget", 1, func(o Oblig) bool { return strings.Contains(o.Key, "Unpack") }),
 			// extracting the archive of a bundle skips no entry it has not looked at: an entry skipped by its header format is a file of the bundle that is missing afterwards
 			ruleBundleFrozen("C09.frozen"),
@@ -56,7 +56,7 @@ func init() {
 	})
 	register("C17", &propDef{
 		Title: "Registry sources resolve to the newest allowed version",
-		Rules: []func(*Checker){ruleC17Dep, ruleC17None, ruleC17Final, ruleCtxNonNil("C17.ctx"), ruleDeprecationKeptWhole("C17.notekept"), ruleSelectionBeforeAnswer("C17.selected"), ruleLoopVarAddrKept("C17.loopvar", "/sourcebundle"), aliasRuleFiltered(ruleC08NoDrop, "C08.nodrop", "C17.nodrop", 1, func(o Oblig) bool { return strings.Contains(o.Key, "pendingRegistry") }), ruleEveryOfferedVersionListed("C17.offered"), ruleRegistryRefusals("C17.refusals")},
+		Rules: []func(*Checker){ruleC17Dep, ruleC17None, ruleC17Final, ruleCtxNonNil("C17.ctx"), ruleDeprecationKeptWhole("C17.notekept"), ruleSelectionBeforeAnswer("C17.selected"), ruleLoopVarAddrKept("C17.loopvar", "/sourcebundle"), aliasRuleFiltered(ruleC08NoDrop, "C08.nodrop", "C17.nodrop", 1, func(o Oblig) bool { return strings.Contains(o.Key, "pendingRegistry") }), ruleEveryOfferedVersionListed("C17.offered"), ruleRegistryRefusals("C17.refusals"), ruleDiagsReachResult("C17.diagresult")},
 		NotDecided: []string{
 			"which version is newest (ordering inside go-versions, trusted library)",
 			"'first listed' vs 'newest' when both depend on the same inputs is only caught through the library-callee identity",
@@ -64,7 +64,7 @@ func init() {
 	})
 	register("C18", &propDef{
 		Title: "Bundle path lookups stay inside the bundle and invert each other",
-		Rules: []func(*Checker){ruleC18DirName, ruleC18Join, ruleC18Reverse, ruleRootSymmetric("C18.symmetric"), ruleCutFoundNotRefused("C18.pkgroot"), ruleDirNameAsWritten("C18.rawname"), ruleForwardPathLexical("C18.lexicalforward"), ruleForwardRefusesUnknownOnly("C18.forward"), ruleAbsOfTheGivenPath("C18.absarg"), ruleNoRunTimeGlobals("C18.noglobals")},
+		Rules: []func(*Checker){ruleC18DirName, ruleC18Join, ruleC18Reverse, ruleRootSymmetric("C18.symmetric"), ruleCutFoundNotRefused("C18.pkgroot"), ruleDirNameAsWritten("C18.rawname"), ruleForwardPathLexical("C18.lexicalforward"), ruleForwardRefusesUnknownOnly("C18.forward"), ruleAbsOfTheGivenPath("C18.absarg"), ruleNoRunTimeGlobals("C18.noglobals"), aliasRuleFiltered(ruleBuilderAbsDir("C10.absdir"), "C10.absdir", "C18.absroot", 1, func(o Oblig) bool { return strings.Contains(o.Key, "rootDir") })},
 		NotDecided: []string{
 			"inversion as an equation on strings (forward then reverse lookup returning the same path)",
 		},
@@ -2079,39 +2079,10 @@ func ruleC10Links(c *Checker) {
 				infoParam = prm
 			}
 		}
-		// not-a-symlink edges: info.Mode()&ModeSymlink tests
-		tE, fE := condEdges(fn, func(v ssa.Value) bool {
-			bo, ok := v.(*ssa.BinOp)
-			if !ok || (bo.Op != token.NEQ && bo.Op != token.EQL) {
-				return false
-			}
-			and, ok := bo.X.(*ssa.BinOp)
-			if !ok || and.Op != token.AND {
-				return false
-			}
-			for w := range p.backSlice(and, 0) {
-				if cl, ok := w.(*ssa.Call); ok && cl.Call.IsInvoke() && cl.Call.Method.Name() == "Mode" && infoParam != nil && canon(cl.Call.Value) == ssa.Value(infoParam) {
-					return true
-				}
-			}
-			return false
-		})
+		// not-a-symlink edges: the symlink test on the walked info, in any of its spellings
 		var notLink []Edge
-		for _, e := range tE {
-			if ifi, ok := e.From.Instrs[len(e.From.Instrs)-1].(*ssa.If); ok {
-				cnd, neg := stripNot(ifi.Cond)
-				if bo, ok := cnd.(*ssa.BinOp); ok && (bo.Op == token.EQL) != neg {
-					notLink = append(notLink, e)
-				}
-			}
-		}
-		for _, e := range fE {
-			if ifi, ok := e.From.Instrs[len(e.From.Instrs)-1].(*ssa.If); ok {
-				cnd, neg := stripNot(ifi.Cond)
-				if bo, ok := cnd.(*ssa.BinOp); ok && (bo.Op == token.NEQ) != neg {
-					notLink = append(notLink, e)
-				}
-			}
+		if infoParam != nil {
+			_, notLink = symlinkEdges(fn, infoParam)
 		}
 		// the target text
 		var target ssa.Value
